@@ -161,6 +161,18 @@ func (w *worker) kill() {
 	w.cmd.Wait()
 	for range w.lines {
 	}
+	w.sweep()
+}
+
+// sweep removes the scratch directory of a worker that could not clean up after itself (killed, crashed).
+func (w *worker) sweep() {
+	if w.cmd != nil && w.cmd.Process != nil {
+		b := os.Getenv("VERIF_SCRATCH")
+		if b == "" {
+			b = "/dev/shm"
+		}
+		os.RemoveAll(fmt.Sprintf("%s/verif-%d", b, w.cmd.Process.Pid))
+	}
 }
 
 func (w *worker) quit() {
@@ -179,6 +191,7 @@ func (w *worker) quit() {
 	}
 	for range w.lines {
 	}
+	w.sweep()
 }
 
 type chunk struct {
